@@ -577,6 +577,7 @@ class ParametersVisitor(LoggerProperty, ast.NodeVisitor):
             self.visit_Assign(node)
 
     def visit_Call(self, node):
+        self.generic_visit(node)  # arguments are evaluated before the call: record uses nested in them first
         for key, value in self.find_values.items():
             value_dump = ast.dump(value)
             if ast_is_call_with_value(node, value_dump):
@@ -588,7 +589,6 @@ class ParametersVisitor(LoggerProperty, ast.NodeVisitor):
                 self.add_value(key, node)
             elif ast_is_kwargs_pop_or_get(node, value_dump):
                 self.add_value(key, node)
-        self.generic_visit(node)
 
     def visit_If(self, node):
         is_test_not = ast_is_not(node.test)
